@@ -24,7 +24,24 @@ ASSUMPTIONS = ["which inbound lines are accepted is decided by the library's dec
                "firmware responses and reboot commands are only recognised and allowed here; their content is C09/C10",
                "commands released when a node wakes up are only allowed here; that they are the right ones is C08",
                "the ack flag of the set that answers a value request is not prescribed by the text (the library echoes the request's flag)"]
-THEOREMS_DOC = {}
+THEOREMS_DOC = {
+    'C05_configurations': "cfgv v g iff g runs the table of version v with that version's >=2.0 flag (the five configurations)", 'C05_type_resolution': 'generated registry, every version: message types 0..4 resolve to handle_presentation/set/req/internal/stream (vm_compute per version)',
+    'C05_internal_resolution': 'generated registry, every version, every internal sub-type in range: the registered handler function (or none) has the behaviour class the hand-written internal_action table gives (finite vm_compute check lifted by In_zrange)',
+    'C05_stream_resolution': 'every version, stream sub-types 0..5: 0 -> firmware config request handler, 2 -> firmware request handler, others none',
+    'C05_route_closed': '_route_message in closed form: presentations dropped; a non-stream command for a sleeping known node is appended to its queue; otherwise passed through',
+    'C05_reply_table': "all 5 configurations, all oracles/clocks, every state with Inv, every accepted line not triggering the wake-up flush: strings given to add_job inside the call (sent at once in asyncio, queued as send jobs when threaded) followed by the returned reply = encodings of the prescribed messages that routing lets through, in order; each node's hold queue grows by exactly the encodings of the prescribed messages withheld for it; configuration unchanged", 'C05_reply_table_asyncio': 'asyncio flavour, recv of one accepted line: the transport log grows by exactly emitted_part of the prescribed list, job queue unchanged, hold queues grow by withheld_part',
+    'C05_reply_table_threaded': 'threaded flavour, the pump iteration that runs the queued line: reply sent at once, nested commands appended to the job queue as send jobs, together = emitted_part; hold queues grow by withheld_part',
+    'C05_at_most_one_command': 'the table never prescribes more than one command',
+    'C05_no_spurious_output_rejected': 'undecodable or invalid line: logic returns the same state and no reply (nothing sent, queued or withheld)',
+    'C05_no_spurious_output_silent': 'accepted message for which the table prescribes nothing: no reply, no send, no job, every hold queue unchanged',
+    'C05_invariant_reachable': 'Inv5 (stored values validated+carriable, node ids 0..255, every withheld/queued/logged command string is the encoding of a carriable validating message, firmware data are bytes) together with Inv holds after every history of op_wire operations from gw_init',
+    'C05_logic_keeps_invariant': 'one dispatcher call (ALL handlers incl. the wake-up flush) keeps Inv5 and its reply string encodes a carriable validating message',
+    'C05_emitted_canonical_valid_partial': 'all histories (any inbound text, both flavours, controller values carriable, set_child_value node id in 0..255 on >=2.0 gateways): every ESend string, every queued send job, every withheld string is canonical, decodes to the message it encodes, which validates for the configured version and has node id in 0..255; a withheld string decodes to a message for the node in whose queue it waits',
+    'C05_emitted_canonical_valid_refuted': "FINDING: without the node-id side condition the statement is false: set_child_value(300,0,2,'1') on a 2.2 gateway sends '300;255;3;0;19;' which does not validate", 'C05_replies_validate': 'per version that sends them: presentation request, discover request, reboot order, config reply (M/I), time reply (any clock), id response (any child id, id in 1..254) validate and are carriable',
+    'C05_validate_ack_independent': 'validation depends on ack only through ack in {0,1}',
+    'C05_prescribed_addressing': 'every prescribed command is addressed to the sender of the inbound message, except the discover request',
+    'C05_presentation_request_addressing': 'a presentation request is prescribed only on >=2.0, to the sender, and only if the sender or the child concerned is unknown',
+    'C05_reply_addressing': "machine level: every string a call emits (nested or reply) or withholds encodes a prescribed message addressed to the sender (withheld: in the sender's queue) or is the broadcast discover request", 'C05_set_child_value_addressing': "controller call set_child_value in closed form (set_child_commands): presentation request to sid if node/child unknown on >=2.0; nothing while the node sleeps; else the validated command with caller's type/ack; all carry the caller's node id; emitted/withheld split as for replies"}
 SCOPE = ["S", "extra"]
 MONITORS = ["c05"]
 
@@ -104,8 +121,16 @@ def spec_check(ctx, items):
     return bad, len(flat)
 
 
+D20_CORPUS = [
+    {"id": "c05-d20-sync", "cfg": {"ver": "2.2", "flavour": "sync", "callback": True, "cb_raises": False, "mqtt": False, "carriable": True},
+     "ops": [("recv", "1;255;0;0;17;2.2"), ("pump",), ("setchild", 300, 0, 2, "1", None, None), ("pump",), ("pump",)]},
+    {"id": "c05-d20-async", "cfg": {"ver": "2.0", "flavour": "async", "callback": False, "cb_raises": False, "mqtt": False, "carriable": True},
+     "ops": [("setchild", -1, 0, 2, "1", None, None), ("setchild", 256, 1, 2, "1", None, 1)]},
+]
+
+
 def run(ctx, res):
-    cases = build_cases(ctx)
+    cases = D20_CORPUS + build_cases(ctx)
     recs = gwcheck.run_cases(ctx, res, cases, MONITORS, SCOPE, "c05")
     if ctx.model is not None:
         items = [(i, gwrun.VERSIONS.index(r["case"]["cfg"]["ver"]), emitted_strings(r["impl"])) for i, r in enumerate(recs)]
@@ -114,7 +139,16 @@ def run(ctx, res):
         for i, lst in bad.items():
             c = recs[i]["case"]
             s, t, sub, v = lst[0]
-            res.violate(f"emitted-invalid/{t};{sub}",
+            key = f"emitted-invalid/{t};{sub}"
+            try:
+                node = int(s.split(";")[0])
+            except ValueError:
+                node = 0
+            if (t, sub) == (3, 19) and not 0 <= node <= 255:
+                # finding D20: set_child_value(<sensor id outside 0..255>) on a >= 2.0 gateway requests a
+                # presentation from that id (C05_emitted_canonical_valid_refuted holds the Coq witness)
+                key = "emitted-invalid/presentation-request-node-out-of-range"
+            res.violate(key,
                         f"[{c['id']}] gateway version {c['cfg']['ver']} emitted {s!r}, which the serial API spec rejects ({v})",
                         {"kind": "spec", "cfg": c["cfg"], "ops": c["ops"], "monitors": MONITORS})
     else:
